@@ -235,6 +235,11 @@ def check_histories(histories, stats=None, pair_check=None):
         for si, (ln, ro, mo) in enumerate(zip(h, robs, mobs)):
             if stats is not None:
                 stats.count(ln, ro, mo)
+            if ro.startswith('err HarnessOracle'):
+                # an oracle of the harness on the implementation alone (exact arithmetic): a failure whatever the
+                # model says about this line
+                diffs.append(Diff(hi, si, ln, 'property oracle on the implementation alone: ' + ro[:300], ro, mo))
+                break
             if ro == 'inexact' or mo == 'inexact':
                 if stats is not None:
                     stats.discarded += 1
